@@ -10,6 +10,9 @@ import subprocess, sys, tempfile, time
 VERIF = os.path.dirname(os.path.dirname(os.path.dirname(os.path.abspath(__file__))))
 REPO = os.environ.get("VERIF_REPO", "/repo")
 TLA = os.path.join(VERIF, "tla")
+# where evidence and replay material go: /verif/evidence for the registered commands; development runs against
+# scratch copies (seeded changes, mutants) set VERIF_EVIDENCE so that they neither overwrite it nor collide
+EVID = os.environ.get("VERIF_EVIDENCE", os.path.join(VERIF, "evidence"))
 GUARD = "CHIBICC_VERIF"
 NCPU = os.cpu_count() or 4
 
@@ -196,7 +199,7 @@ class Ctx:
     # ------------------------------------------------------- violations
     def replay_dir(self, name):
         name = re.sub(r"[^A-Za-z0-9_.-]", "_", name)[:80]
-        p = os.path.join(VERIF, "evidence", "replays", self.prop, name)
+        p = os.path.join(EVID, "replays", self.prop, name)
         shutil.rmtree(p, ignore_errors=True)
         os.makedirs(p, exist_ok=True)
         return p
@@ -252,8 +255,8 @@ class Ctx:
         ev = dict(property_id=self.prop, tier=self.tier, seed=self.seed, level=self.level,
                   coverage=cov, assumptions=self.assumptions,
                   wall_s=round(time.time() - self.t0, 1), violations=len(self.violations))
-        os.makedirs(os.path.join(VERIF, "evidence"), exist_ok=True)
-        p = os.path.join(VERIF, "evidence", self.prop + ".json")
+        os.makedirs(EVID, exist_ok=True)
+        p = os.path.join(EVID, self.prop + ".json")
         json.dump(ev, open(p + ".tmp", "w"), indent=1, default=str)
         os.replace(p + ".tmp", p)
         print("%s %s tier=%s seed=%d: states=%d transitions=%d evaluations=%d distinct=%d traces=%d violations=%d known=%d wall=%.1fs" % (
